@@ -20,6 +20,10 @@ Tie + implementation-side oracle (this file, harness/h_c08.c = the real code und
  (e) per real API call the set of inventory cells whose bytes changed must be inside the write set the model
      declares for the corresponding operation, and the model's protocol phase must equal acmod->state.
 
+ (g) result queries are read-only for the utterance: a fresh decoder that is queried in the MIDDLE of the utterance
+     (hyp, segmentation, lattice, alignment on the partial result) must end with the same result as a fresh decoder
+     fed the same audio without the queries (crossed with non-default scorer configurations: ds 2/3, topn).
+
 Static tie (tools/gen_writesets.py, Props/C08Static.lean): on every run the may-write set of struct fields / globals
 of every API phase is recomputed from the clang AST of every src/*.c (call graph with the vtables resolved) and
 compared by `decide` with the model's classification and declared write sets; the struct set reachable from decoder_s
@@ -105,6 +109,7 @@ def materials(c):
         "maxhmm150": f"hmm={en},maxhmmpf=150",
         "maxhmm250": f"hmm={en},maxhmmpf=250",
         "ds2": f"hmm={en},ds=2,topn=2",
+        "ds3": f"hmm={en},ds=3,topn=4",
         # vocal-tract-length warping of the mel filter bank: fe_warp_*.c keep the warp in process-wide statics written by fe_init
         "warp_il": f"hmm={en},warp_params=1.1",
         "warp_il2": f"hmm={en},warp_type=inverse_linear,warp_params=0.92",
@@ -174,6 +179,8 @@ def gen_utt(rng, mat, stats, target=False):
         utt["nosearch"] = [0] * len(utt["chunks"])
     if mode in ("stream", "mixed") and utt["chunks"] and rng.chance(0.4):
         utt["partial"] = sorted({rng.below(len(utt["chunks"])) for _ in range(rng.range(1, 3))})
+        # what is asked in the middle of the utterance: hyp + segmentation (0), + lattice (1), + alignment (2, 3)
+        utt["pflags"] = {str(i): rng.choice([0, 0, 1, 2, 3]) for i in utt["partial"]}
     stats["modes"][mode] = stats["modes"].get(mode, 0) + 1
     stats["audio"][mat["audio"][a]["name"]] = stats["audio"].get(mat["audio"][a]["name"], 0) + 1
     return utt
@@ -236,6 +243,30 @@ def beam_carry_scenario(rng, mat, stats):
             "poison": rng.choice([0, 0, 7]), "poison_seed": rng.below(1 << 30)}
 
 
+def query_interference_scenario(rng, mat, stats):
+    """non-default Gaussian selection (ds 2/3: the top-N history of the previous frame is reused, the second pass of
+    decoder_alignment has its own replay history) x read-only queries in the MIDDLE of a streamed utterance: the final
+    result must be what a fresh decoder gives for the same audio without the queries (oracle g)"""
+    names = [x["name"] for x in mat["audio"]]
+    cfg = rng.choice(["ds2", "ds2", "ds3", "allsen", "batchcmn"])
+    a = names.index(rng.choice(["goforward", "goforward", "loud"]))
+    n = mat["audio"][a]["n"]
+    step = rng.choice([2048, 3000, 4096, 6000])
+    chunks = [min(step, n - i) for i in range(0, n, step)]
+    mids = list(range(1, len(chunks) - 1)) or [0]
+    partial = sorted({rng.choice(mids) for _ in range(rng.range(2, 5))})
+    utt = {"a": a, "off": 0, "len": n, "mode": "stream", "fmt": rng.choice(["i", "f"]), "flags": 3, "chunks": chunks,
+           "chunking": "fixed", "nosearch": [0] * len(chunks), "partial": partial,
+           "pflags": {str(i): rng.choice([2, 3, 3, 1]) for i in partial}}
+    g = {"kind": "jsgf", "i": rng.choice([0, 1, 5])}
+    prev = gen_utt(rng, mat, stats)
+    stats["query_interference_scenarios"] = stats.get("query_interference_scenarios", 0) + 1
+    stats["configs"][cfg] = stats["configs"].get(cfg, 0) + 1
+    return {"cfg": cfg, "items": [{"op": "gram", "g": g}, {"op": "utt", "utt": prev}],
+            "target": {"g": g, "cmn": rng.choice(CMN_TEXTS), "utt": utt, "no_cmn_reset": False},
+            "poison": rng.choice([0, 1, 7]), "poison_seed": rng.below(1 << 30)}
+
+
 def gen_history(rng, mat, stats, ring_growth=False, beam_carry=False):
     if beam_carry or rng.chance(0.06):
         return beam_carry_scenario(rng, mat, stats)
@@ -294,7 +325,7 @@ def gram_ops(d, g, mat):
     return [f"align {d} {hx(g['text'])}"]
 
 
-def utt_ops(d, utt, poison=0, pseed=0):
+def utt_ops(d, utt, poison=0, pseed=0, strip_partial=False):
     ops = [f"start {d}", f"chk {d}"]
     if poison:
         ops.append(f"poison {d} {pseed} {poison}")
@@ -303,8 +334,8 @@ def utt_ops(d, utt, poison=0, pseed=0):
         full = 1 if utt["mode"] == "batch" else 0
         ops.append(f"proc {d} {utt['a']} {pos} {ln} {utt['nosearch'][i]} {full} {utt['fmt']}")
         pos += ln
-        if i in utt["partial"]:
-            ops.append(f"result {d} 0")
+        if i in utt["partial"] and not strip_partial:
+            ops.append(f"result {d} {utt.get('pflags', {}).get(str(i), 0)}")
     ops += [f"end {d}", f"result {d} {utt['flags']}"]
     return ops
 
@@ -336,14 +367,14 @@ def history_ops(h, mat, d=0, poison=True):
     return ops, mark
 
 
-def fresh_ops(h, mat, d=0):
+def fresh_ops(h, mat, d=0, strip_partial=False):
     t = h["target"]
     ops = [f"new {d} {mat['cfgs'][h['cfg']]}"] + gram_ops(d, t["g"], mat)
     # batch CMN: the fresh decoder keeps its initial CMN state (the history decoder has whatever the history left)
     if not t["no_cmn_reset"]:
         ops.append(f"setcmn {d} {t['cmn']}")
     mark = len(ops)
-    ops += utt_ops(d, t["utt"])
+    ops += utt_ops(d, t["utt"], strip_partial=strip_partial)
     return ops, mark
 
 
@@ -627,11 +658,14 @@ def judge_history(c, binp, mat, h, tables, stats, label, pre):
     """returns None when the history is fine, else a dict describing the failure (already classified)"""
     hops, hmark = history_ops(h, mat)
     fops, fmark = fresh_ops(h, mat)
-    with cf.ThreadPoolExecutor(2) as ex:
+    qops, qmark = fresh_ops(h, mat, strip_partial=True) if h["target"]["utt"].get("partial") else (None, 0)
+    with cf.ThreadPoolExecutor(3) as ex:
         fh = ex.submit(run_ops, binp, pre, hops)
         ff = ex.submit(run_ops, binp, pre, fops)
+        fq = ex.submit(run_ops, binp, pre, qops) if qops else None
         rh, rf = fh.result(), ff.result()
-    stats["calls"] += len(hops) + len(fops)
+        rq = fq.result() if fq else None
+    stats["calls"] += len(hops) + len(fops) + (len(qops) if qops else 0)
     if crashed(rh) or crashed(rf):
         which = rh if crashed(rh) else rf
         if "decoder_alignment" in which["err"] and any_alignment(h):
@@ -671,6 +705,17 @@ def judge_history(c, binp, mat, h, tables, stats, label, pre):
             if not crashed(r2) and first_diff(section(r2, hmark), b) is None:
                 res["kind"] = "poisoning-a-dead-buffer-changes-the-result"
         return res
+    if rq is not None and not crashed(rq):
+        # oracle (g): the same fresh decoder without the mid-utterance queries must end with the same result
+        tail = lambda sec: next((sec[i:] for i, (cmd, _) in enumerate(sec) if cmd == "end"), [])
+        dq = first_diff(tail(strip(b)), tail(strip(section(rq, qmark))))
+        stats["query_noninterference_compared"] = stats.get("query_noninterference_compared", 0) + 1
+        for v in h["target"]["utt"].get("pflags", {}).values():
+            stats.setdefault("mid_utterance_query_flags", {}).setdefault(str(v), 0)
+            stats["mid_utterance_query_flags"][str(v)] += 1
+        if dq is not None:
+            return {"kind": "query-changes-the-utterance-result", "first_difference": dq,
+                    "with_queries_ops": fops, "without_queries_ops": qops, "config": h["cfg"]}
     if tables is not None:
         for run, lab in ((rh, "history"), (rf, "fresh")):
             probs = check_model_tie(c, run, tables, stats, f"{label} {lab}", h["cfg"] == "livecmn")
@@ -680,13 +725,15 @@ def judge_history(c, binp, mat, h, tables, stats, label, pre):
 
 
 def any_alignment(h):
-    return any(u["flags"] & 2 for u in [it["utt"] for it in h["items"] if it["op"] == "utt"] + [h["target"]["utt"]])
+    return any(u["flags"] & 2 or any(v & 2 for v in u.get("pflags", {}).values())
+               for u in [it["utt"] for it in h["items"] if it["op"] == "utt"] + [h["target"]["utt"]])
 
 
 def without_alignment(h):
     h = json.loads(json.dumps(h))
     for u in [it["utt"] for it in h["items"] if it["op"] == "utt"] + [h["target"]["utt"]]:
         u["flags"] &= ~2
+        u["pflags"] = {k: v & ~2 for k, v in u.get("pflags", {}).items()}
     return h
 
 
@@ -966,7 +1013,8 @@ def check(c):
         nhist = npair = 0
     distinct, ok = set(), True
     for i in range(nhist):
-        h = gen_history(rng, mat, stats, ring_growth=(i % 8 == 0), beam_carry=(i % 8 == 4))
+        h = query_interference_scenario(rng, mat, stats) if i % 8 == 2 else \
+            gen_history(rng, mat, stats, ring_growth=(i % 8 == 0), beam_carry=(i % 8 == 4))
         distinct.add(json.dumps(h, sort_keys=True))
         if i < 2:
             c.samples.append({"config": h["cfg"], "history": [it["op"] + (":" + it["utt"]["mode"] if it["op"] == "utt" else "") for it in h["items"]],
@@ -1022,6 +1070,9 @@ def check(c):
              "(batch CMN + full_utt: without any CMN reset); no sanitizer report / abort on the way",
              fk not in ("kth-utterance-differs-from-fresh-decoder", "crash"))
     c.oblige("(d) two interleaved decoders each equal their solo run", fk != "two-decoders-interfere")
+    c.oblige(f"(g) result queries in the middle of an utterance (hyp, segmentation, lattice, alignment of the partial result) leave "
+             f"its final result unchanged: fresh decoder with vs without the queries ({stats.get('query_noninterference_compared', 0)} "
+             f"utterances compared)", fk != "query-changes-the-utterance-result")
     if tables is not None:
         c.oblige("(e) per call: changed inventory cells ⊆ declared write set of the model operation; protocol phase = acmod->state; "
                  "the model never reports a stale read", fk != "model-tie")
@@ -1114,7 +1165,8 @@ def report(c, res, h, mat, label, stats=None):
     """record one failure; returns True when it is a listed known finding (reported as such, the search goes on)"""
     # poisoning / canonical-value / write-set failures show that the classification is wrong for the implementation, which is a
     # broken tie; only a difference produced by a real history is the property failing on a concrete input
-    found_input = res["kind"] in ("kth-utterance-differs-from-fresh-decoder", "two-decoders-interfere")
+    found_input = res["kind"] in ("kth-utterance-differs-from-fresh-decoder", "two-decoders-interfere",
+                                  "query-changes-the-utterance-result")
     obj = dict(res)
     obj["label"] = label
     if h is not None:
